@@ -39,6 +39,10 @@ def gen_case(r, hashseed):
       program['recursive'][name] = {'depth': d, 'iterative': True}
       iterative_forced = True
   idb = gen.idb_names(program)
+  if r.random() < 0.2:
+    # annotations on members of the recursive component or on its dependants: they are rewritten
+    # during unfolding and must not change the number of applications
+    program['ground'] = sorted(set(r.sample(idb, min(len(idb), r.choice([1, 1, 2])))))
   k = r.choice([1, 1, 2, 3, len(idb)])
   requested = r.sample(idb, min(k, len(idb)))
   if main not in requested and r.random() < 0.7:
@@ -131,6 +135,9 @@ def run_program(program, requested, path, dbpath, faults):
     comp = lrun.compiled(text, requested)
   except lrun.mods().functors.FunctorError as e:
     raise ProvenEmpty(getattr(e, 'functor_name', None), str(getattr(e, 'message', e)))
+  except lrun.mods().rule_translate.RuleCompileException as e:
+    # a diagnostic is not an answer (e.g. @Ground on a member of an iterative component is rejected)
+    raise sqlworld.TooExpensive('compiler diagnostic: %s' % str(e)[:80])
   except (RecursionError, MemoryError):
     # interpreter resource limits are outside the property: discard and count
     raise sqlworld.TooExpensive('compiler exhausted the interpreter recursion/memory limit')
